@@ -1,6 +1,6 @@
 (* Props/C06.v - Prepared-statement parameters are bound as data, never as SQL. *)
 From Coq Require Import List NArith ZArith Lia Bool.
-From MM Require Import Lib.Bytes Model.Placeholders Model.Parse Proofs.PlaceholderProofs Proofs.ParseProofs Gen.FactsPackets Gen.FactsConn.
+From MM Require Import Lib.Bytes Model.Placeholders Model.Parse Proofs.PlaceholderProofs Proofs.ParseProofs Gen.FactsPackets Gen.FactsConn Gen.FactsCharset.
 Import ListNotations.
 Open Scope N_scope.
 
@@ -12,7 +12,9 @@ Theorem c06_source_shape :
   (* long data is attached by COM_STMT_SEND_LONG_DATA and discarded by every execution before the query runs *)
   connection_connection_handle_stmt_execute_ok = true /\ connection_connection_handle_stmt_send_long_data_ok = true /\
   connection_connection_handle_stmt_prepare_ok = true /\ connection_connection_handle_stmt_reset_ok = true /\
-  types_fixed_width_ok = true /\ types_read_uint_len_ok = true /\ types_read_str_len_ok = true.
+  types_fixed_width_ok = true /\ types_read_uint_len_ok = true /\ types_read_str_len_ok = true /\
+  packets_read_params_ok = true /\ packets_read_param_value_ok = true /\ packets_parse_com_stmt_execute_ok = true /\
+  packets_interpolate_params_ok = true.
 Proof. repeat split; reflexivity. Qed.
 
 (* the one-pass scanner recognises exactly the positions of the placeholder regex:
